@@ -1125,6 +1125,22 @@ func boundSpecs(thorough bool) []composeSpec {
 	return specs
 }
 
+// boundSpecsOf keeps the Bound() specs of the named kinds: the bound pre-test of a generic entry (clip.Geometry)
+// relies on them.
+func boundSpecsOf(kinds ...string) func(bool) []composeSpec {
+	return func(thorough bool) []composeSpec {
+		var out []composeSpec
+		for _, sp := range boundSpecs(thorough) {
+			for _, k := range kinds {
+				if sp.entry == "orb.("+k+").Bound" {
+					out = append(out, sp)
+				}
+			}
+		}
+		return out
+	}
+}
+
 // ---------------------------------------------------------------------------
 // order facts of a path
 
